@@ -1059,4 +1059,124 @@ V('20.7', 'C20', 'R20c', 'fire', DAT,
   '    return (86400000000 * timespan.days +',
   '    return (8640000000 * timespan.days +', 'day length off by ten')
 
+
+
+# ---------------------------------------------------------------- C05
+V('05.1', 'C05', 'R05a', 'fire', RUN,
+  '''    def raise_not_found():
+        if receiver is utils.NO_VALUE:''',
+  '''    def raise_not_found():
+        if receiver is not utils.NO_VALUE:''',
+  'no-matching errors of the wrong kind')
+V('05.1t', 'C05', '', 'silent', RUN,
+  '''        if receiver is utils.NO_VALUE:
+            raise exceptions.NoMatchingFunctionException(name)
+        else:
+            raise exceptions.NoMatchingMethodException(name, receiver)''',
+  '''        if receiver is not utils.NO_VALUE:
+            raise exceptions.NoMatchingMethodException(name, receiver)
+        raise exceptions.NoMatchingFunctionException(name)''',
+  'twin: mirrored test -- the function raise is no longer inside the If')
+V('05.2', 'C05', 'R05b', 'fire', RUN,
+  '    if not all_overloads:\n        if receiver is utils.NO_VALUE:',
+  '    if all_overloads is None:\n        if receiver is utils.NO_VALUE:',
+  'unknown-function verdict no longer tied to an empty collection')
+V('05.3', 'C05', 'R05c', 'fire', SPE,
+  '            if not param.value_type.check(val, context, engine):\n                raise exceptions.ArgumentException(param.name)',
+  '            if val is not None and not param.value_type.check(\n                    val, context, engine):\n                raise exceptions.ArgumentException(param.name)',
+  'null skips the second-phase type check')
+V('05.3t', 'C05', '', 'silent', SPE,
+  '            if not param.value_type.check(val, context, engine):\n                raise exceptions.ArgumentException(param.name)',
+  '            fits = param.value_type.check(val, context, engine)\n            if not fits:\n                raise exceptions.ArgumentException(param.name)',
+  'twin: outcome bound to a local')
+V('05.4', 'C05', 'R05c', 'fire', SPE,
+  '                    keyword_args[key] = checked(value, argdef)',
+  '                    keyword_args[key] = (lambda c, v=value: v)',
+  '**kwargs values reach the payload unchecked')
+V('05.5', 'C05', 'R05c', 'fire', SPE,
+  '''            if not keyword_args[kwd].value_type.check(
+                    kwargs[kwd], context, engine):
+                return None''',
+  '''            if kwargs[kwd] is not None and not keyword_args[
+                    kwd].value_type.check(kwargs[kwd], context, engine):
+                return None''',
+  'map_args: keyword null skips the check')
+V('05.6', 'C05', 'R05d', 'fire', RUN,
+  '            delegate = winners[0]\n            break\n',
+  '            delegate = winners[0]\n',
+  'outer layers override the nearest match')
+V('05.7', 'C05', 'R05e', 'fire', RUN,
+  '            except exceptions.ArgumentException:\n                pass',
+  '            except exceptions.YaqlException:\n                pass',
+  'any yaql error during delegate construction means "does not match"')
+V('05.8', 'C05', 'R05f', 'fire', RUN,
+  '    for level in candidates:\n        new_level = []\n',
+  '    for level in candidates:\n        new_level = []\n        lazy_params = None\n',
+  'laziness validated per layer only')
+V('05.9', 'C05,C17', 'R17d', 'fire', CTX,
+  '            p = None if is_exclusive else p.parent',
+  '            p = p.parent',
+  'exclusive layers ignored')
+
+# ---------------------------------------------------------------- new rules
+V('11.10', 'C11,C12', 'R11f', 'fire', RUN,
+  '                    lazy.add(key)', '                    lazy.add(value.name)',
+  'lazy set keyed by python parameter name')
+V('13.4', 'C13', 'R13b', 'fire', UTI,
+  '        def __iter__(self):\n            return RememberingIterator()',
+  '        def __iter__(self):\n            self.index = 0\n            return self',
+  'memorized collection rewinds one shared cursor')
+V('14.8', 'C14', 'R14e', 'fire', UTI,
+  '        def __iter__(self):\n            return RememberingIterator()\n',
+  '        def __iter__(self):\n            return RememberingIterator()\n\n        def __len__(self):\n            return len(list(RememberingIterator()))\n',
+  'lazy wrapper sized by reading the source')
+V('14.9', 'C14', 'R14a', 'fire', QUE,
+  '''    for self_item in collection1:
+        for other_item in collection2:
+            if predicate(self_item, other_item):
+                yield selector(self_item, other_item)''',
+  '''    for self_item, other_item in itertools.product(
+            collection1, collection2):
+        if predicate(self_item, other_item):
+            yield selector(self_item, other_item)''',
+  'itertools.product pools both inputs first')
+V('15.8', 'C15', 'R15f', 'fire', STR,
+  '    return left < right\n', '    return left.lower() < right.lower()\n',
+  'case-insensitive < only')
+V('15.8t', 'C15', '', 'silent', MAT,
+  '    return left < right\n', '    res = left < right\n    return res\n',
+  'twin: result bound to a local')
+V('15.9', 'C15', 'R15f', 'fire', COM,
+  '    return left != right\n', '    return not left == right and left is not None\n',
+  '!= no longer the complement of =')
+V('12.6', 'C12', 'R12d', 'fire', PAR,
+  '''                | arglist ',' arglist
+                | incomplete_arglist ',' arglist''',
+  '''                | arglist ',' arglist''',
+  'two adjacent empty slots no longer derivable')
+V('19.6', 'C19', 'R19a', 'fire', STR,
+  '    if letters:\n        string += string_module.ascii_letters',
+  "    if letters:\n        string += getattr(string_module, 'letters', '')",
+  'python 2 name looked up with a silent default')
+V('03.7t', 'C03', '', 'silent', PAR,
+  '''        if p:
+            raise exceptions.YaqlGrammarException(
+                p.lexer.lexdata, p.value, p.lexpos)''',
+  '''        if p:
+            tok = p
+            raise exceptions.YaqlGrammarException(
+                tok.lexer.lexdata, tok.value, tok.lexpos)''',
+  'twin: token aliased')
+V('05.2t', 'C05', '', 'silent', RUN,
+  '    if not all_overloads:\n        if receiver is utils.NO_VALUE:',
+  '    if len(all_overloads) == 0:\n        if receiver is utils.NO_VALUE:',
+  'twin: emptiness spelled with len()')
+V('05.6t', 'C05', '', 'silent', RUN,
+  '            delegate = winners[0]\n            break\n',
+  '            return winners[0]\n',
+  'twin: returns the winner from inside the layer loop')
+V('05.7t', 'C05', '', 'silent', RUN,
+  '            except exceptions.ArgumentException:\n                pass',
+  '            except (exceptions.ArgumentException,):\n                continue',
+  'twin: tuple handler, continue')
 VARIANTS = [v for v in VARIANTS if v is not None]
